@@ -642,6 +642,7 @@ _tag_quick("C14", [r"^C05/hash-delta/"])              # repetition counting comp
 _tag_quick("C10", [r"^C06/semilegal/", r"^C06/well-formed$"])   # the UCI reader accepts iff the validator does
 _tag_quick("C09", [r"^C01/gen/dispatch$", r"^C07/legal-filter$"])
 _tag_quick("C07", [r"^C01/gen/dispatch$"])
+_tag_quick("C02", [r"^C01/legal/is-legal/Enpassant/"])   # Move::validate (UCI / SAN application) decides with this checker
 
 # C19: for every unsafe site the cheapest quick obligation that executes it (thorough: all of them)
 _c19 = {"C19/unsafe-site-map", "C19/capacity-witnesses"}
